@@ -419,6 +419,34 @@ func init() {
 					c.NonTrivial("keykind", fmt.Sprintf("%T", x), fmt.Sprint(si))
 				}
 			}
+			if c.Idx%64 == 14 {
+				// byte slices whose base64 text is around what is left of a pooled output buffer
+				// (1024 bytes when fresh), on emptied and on warm pools
+				for si, n := range []int{0, 1, 2, 3, 4, 100, 700, 760, 764, 765, 766, 767, 768, 770, 1000, 1535, 1536, 3000, 49152, 70000} {
+					b := make([]byte, n)
+					for i := range b {
+						b[i] = byte(i*13 + n)
+					}
+					if !c.Cur(7400+si, fmt.Sprintf("shapes=core\nbyte slice of %d bytes", n)) {
+						continue
+					}
+					for _, x := range []any{b, struct {
+						A string
+						B []byte
+						C []byte
+					}{"pad", b, b[:n/2]}, [][]byte{b[:n/3], b}, map[string]any{"k": b}} {
+						v := reflect.ValueOf(x)
+						for ci := range encCfgs {
+							if ci%2 == 0 {
+								runtime.GC()
+								runtime.GC()
+							}
+							encCompare(c, 7400+si, "enc-diff", &encCfgs[ci], "direct", x, v.Type(), v, "")
+						}
+					}
+					c.NonTrivial("bytes", fmt.Sprint(n))
+				}
+			}
 			if c.Idx%64 == 12 {
 				// types with both MarshalJSON and MarshalText (pointer receivers, value receivers,
 				// one of each): as by-value and pointer members of structs with one and several
